@@ -173,6 +173,31 @@ def parts_of(spec):
     return [{k: spec[k] for k in ("driver", "harness", "harness_args", "harness_timeout", "race", "gomemlimit") if k in spec}]
 
 
+def write_gen(ctx, out, new):
+    """Installs a regenerated Lean file.  A run against a scratch worktree (VERIF_REPO) restores the previous
+    content when it ends, so that it never leaves a foreign model in the shared lake project."""
+    with LakeLock():
+        old = open(out).read() if os.path.exists(out) else None
+        if old != new:
+            if not hasattr(ctx, "restore_files"):
+                ctx.restore_files = {}
+            ctx.restore_files.setdefault(out, old)
+            open(out, "w").write(new)
+            ctx.notes.append(f"regenerated {os.path.relpath(out, LEAN)} differs from the previous copy")
+
+
+def restore_gen(ctx):
+    if os.path.realpath(REPO) == "/repo":
+        return
+    with LakeLock():
+        for out, old in getattr(ctx, "restore_files", {}).items():
+            if old is None:
+                if os.path.exists(out):
+                    os.remove(out)
+            else:
+                open(out, "w").write(old)
+
+
 def regen_skeletons(ctx, requests, extra_methods=()):
     """Regenerates lean/Hive/Gen/<pid>_Skel.lean (namespace Hive.Gen.<pid>Skel) with the synchronisation
     skeletons of the requested functions: requests = ["kvstore/sequence.go:Sequence.Next", ...] relative to the
@@ -186,12 +211,7 @@ def regen_skeletons(ctx, requests, extra_methods=()):
     rc, log = sh(args, cwd=HARNESS, timeout=600)
     if rc != 0 or not os.path.exists(tmp):
         return [{"kind": "skeleton-extractor", "detail": tail(log, 20)}]
-    new = open(tmp).read()
-    with LakeLock():
-        old = open(out).read() if os.path.exists(out) else None
-        if old != new:
-            open(out, "w").write(new)
-            ctx.notes.append(f"regenerated Hive/Gen/{ctx.pid}_Skel.lean differs from the previous copy")
+    write_gen(ctx, out, open(tmp).read())
     return []
 
 
@@ -521,6 +541,7 @@ def main(argv):
                 f"oracle_findings={len(tie['findings'])} violations={violations} wall={time.time() - ctx.t0:.1f}s")
         return 1 if violations else 0
     finally:
+        restore_gen(ctx)
         shutil.rmtree(ctx.scratch, ignore_errors=True)
 
 
